@@ -973,7 +973,7 @@ pub fn build_context_fanout(glyph: u16, records: u16, depth: u8, variant: u64) -
 }
 
 /// Tokens of a CFF DICT: per operator the operands as (start, length, integer value; reals 0).
-fn dict_tokens(d: &[u8]) -> Vec<(u16, Vec<(usize, usize, i64)>)> {
+pub(crate) fn dict_tokens(d: &[u8]) -> Vec<(u16, Vec<(usize, usize, i64)>)> {
     let mut out = Vec::new();
     let mut ops: Vec<(usize, usize, i64)> = Vec::new();
     let mut i = 0;
